@@ -246,3 +246,95 @@ func GenASI(r *Rng) ASICase {
 		return c
 	}
 }
+
+// ---------------------------------------------------------------------------
+// Compositions of the short-circuit / nullish operators with each other in
+// every nesting, over operands of three kinds:
+//   run-time values   a, b   (drawn at run time from null, undefined, 0, "",
+//                             false, NaN, 1, "x", objects: the program loops)
+//   K                 expressions whose type is syntactically known (literals,
+//                     + - ~ ! typeof void, arithmetic / comparison / in /
+//                     instanceof, templates) - what a compile-time analysis
+//                     may classify as never / always nullish, truthy, falsy
+//   P                 probe calls $p(id, K) (opaque to the compiler, with a
+//                     visible side effect: shows whether an operand was evaluated)
+// e.g. (a && K) ?? P, (a || K) ?? b, (a ?? K) ?? P, (a && K) || P, a ?? (b && K),
+// !(a && K) ? P : K, (a, K) ?? P, a?.x ?? K, b ??= K ...
+func GenLogical(r *Rng) string {
+	id := 0
+	probe := func(inner string) string {
+		id++
+		return fmt.Sprintf("$p(%d, %s)", id, inner)
+	}
+	known := func() string {
+		ks := []string{"1", "0", "\"yes\"", "\"\"", "true", "false", "1n", "0n", "/r/", "function () {}", "{}", "[]", "class {}", "null", "undefined", "void 0",
+			"+a", "-a", "~a", "!a", "!!a", "typeof a", "void a", "a > 0", "a == null", "a === b", "\"k\" in {k: 1}", "({}) instanceof Object",
+			"a + 1", "a * 2", "a | 0", "a - b", "`t${b}`", "`t`", "a + \"\"", "(a, 1)", "(b, null)", "NaN", "Infinity", "-1", "\"x\" + b", "[a].length", "a != b"}
+		return ks[r.Intn(len(ks))]
+	}
+	var gen func(depth int) (string, bool) // text, atomic
+	gen = func(depth int) (string, bool) {
+		if depth <= 0 || r.Chance(25) {
+			switch r.Intn(7) {
+			case 0, 1:
+				return "a", true
+			case 2:
+				return "b", true
+			case 3, 4:
+				k := known()
+				return "(" + k + ")", true
+			case 5:
+				return probe(known()), true
+			default:
+				return []string{"a?.k", "a?.[0]", "b?.length", "o.n", "o.z"}[r.Intn(5)], true
+			}
+		}
+		l, _ := gen(depth - 1)
+		rr, _ := gen(depth - 1)
+		switch r.Intn(12) {
+		case 0, 1, 2:
+			return "(" + l + " && " + rr + ")", true
+		case 3, 4:
+			return "(" + l + " || " + rr + ")", true
+		case 5, 6, 7:
+			return "(" + l + " ?? " + rr + ")", true
+		case 8:
+			return "(" + l + ", " + rr + ")", true
+		case 9:
+			c, _ := gen(depth - 1)
+			return "(" + c + " ? " + l + " : " + rr + ")", true
+		case 10:
+			return "(!" + l + ")", true
+		default:
+			op := []string{"??=", "||=", "&&="}[r.Intn(3)]
+			return "(t " + op + " " + rr + ")", true
+		}
+	}
+	var sb strings.Builder
+	sb.WriteString("var o = {n: null, z: 0}, t;\nfor (var a of [null, undefined, 0, \"\", false, NaN, 1, \"x\", {k: 1}, [7]]) for (var b of [undefined, null, 0, \"b\"]) {\n")
+	for k := r.Range(2, 4); k > 0; k-- {
+		e, _ := gen(r.Range(2, 3))
+		// the shapes the nullish / boolean folding looks at, drawn often
+		if r.Chance(45) {
+			inner := []string{"&&", "||", "??"}[r.Intn(3)]
+			outer := []string{"??", "??", "||", "&&"}[r.Intn(4)]
+			left := "(" + []string{"a", "b", "a?.k", probe("a")}[r.Intn(4)] + " " + inner + " " + "(" + known() + "))"
+			right := []string{probe(known()), "b", "(" + known() + ")"}[r.Intn(3)]
+			if r.Chance(25) {
+				e = "(" + right + " " + outer + " " + left + ")"
+			} else {
+				e = "(" + left + " " + outer + " " + right + ")"
+			}
+		}
+		switch r.Intn(4) {
+		case 0:
+			fmt.Fprintf(&sb, "  t = b; try { if (%s) $p(\"then\"); else $p(\"else\"); } catch (e) { $p(\"E\", e && e.constructor && e.constructor.name); }\n", e)
+		case 1:
+			fmt.Fprintf(&sb, "  t = a; try { $p(\"r\", %s ? \"T\" : \"F\"); } catch (e) { $p(\"E\", e && e.constructor && e.constructor.name); }\n", e)
+		default:
+			fmt.Fprintf(&sb, "  t = b; try { $p(\"r\", %s, t); } catch (e) { $p(\"E\", e && e.constructor && e.constructor.name); }\n", e)
+		}
+	}
+	sb.WriteString("}\n")
+	return sb.String()
+}
